@@ -289,17 +289,19 @@ def is_line_for_acl(line: str) -> bool:
 
     If Starts with "allow", "deny", "remark" startswith` + `split` faster than `re`.
     """
-    if line.startswith("permit "):
-        return True
-    if line.startswith("remark "):
-        return True
-    if line.startswith("deny "):
-        return True
+    while True:
+        if line.startswith("permit "):
+            return True
+        if line.startswith("remark "):
+            return True
+        if line.startswith("deny "):
+            return True
 
-    digit, *items = line.split(" ", 1)
-    if digit.isdigit() and items:
-        return is_line_for_acl(items[0])
-    return False
+        digit, *items = line.split(" ", 1)
+        if digit.isdigit() and items:
+            line = items[0]
+            continue
+        return False
 
 
 def lines_wo_spaces(line: str) -> LStr:
